@@ -683,7 +683,9 @@ type GenOpts struct {
 }
 
 var benignNames = []string{"file.txt", "report.pdf", "image.png", "a b.dat", "data", "übung.txt", "日本.bin", "x;y=z.bin", "semi;colon.txt", "noext", "archive.tar.gz", "spaced name here.doc",
-	"Screenshot 2024-01-01 at 10.00.00\u202fAM.png", "全角\u3000スペース.txt", "nbsp\u00a0name.doc", "family\U0001F468\u200d\U0001F469.png", "soft\u00adhyphen.txt", "r\xe9sum\xe9 latin1.pdf", "bom\ufeffname.bin"}
+	"Screenshot 2024-01-01 at 10.00.00\u202fAM.png", "全角\u3000スペース.txt", "nbsp\u00a0name.doc", "family\U0001F468\u200d\U0001F469.png", "soft\u00adhyphen.txt", "r\xe9sum\xe9 latin1.pdf", "bom\ufeffname.bin",
+	// printf verbs and URL escapes in ordinary ASCII names
+	"Annual%20Report%202024.pdf", "progress 100%.pdf", "%s%d%v.txt", "100%!(NOVERB).bin"}
 
 var benignDescs = []string{"", "", "", "a description", "Beschreibung mit ü", "desc; with=chars", "x"}
 
